@@ -305,7 +305,7 @@ func (w *World) converterArms(fi *FuncInfo) []convArm {
 	info := fi.Pkg.TypesInfo
 	var out []convArm
 	var sw *ast.SwitchStmt
-	ast.Inspect(fi.Decl, func(n ast.Node) bool {
+	w.inspectRegion(fi, func(n ast.Node) bool {
 		if s, ok := n.(*ast.SwitchStmt); ok && sw == nil && s.Tag != nil && exprString(s.Tag) == "ruleName" {
 			sw = s
 		}
@@ -685,7 +685,7 @@ func (w *World) loopSkipProfileLocal(fi *FuncInfo, ownPkg string) map[string]str
 	// a skip is a block that does nothing but `continue` (and log): a `continue` that ends a
 	// block with other effects is a dispatch (the element was handled another way), not a skip
 	pure := map[*ast.BranchStmt]bool{}
-	ast.Inspect(fi.Decl.Body, func(n ast.Node) bool {
+	w.inspectRegion(fi, func(n ast.Node) bool {
 		b, ok := n.(*ast.BlockStmt)
 		if !ok || len(b.List) == 0 {
 			return true
